@@ -909,6 +909,13 @@ int EGLPNUM_TYPENAME_ILLlib_newrow (
 
 	rval = EGLPNUM_TYPENAME_ILLlib_addrow (lp, B, 0, 0, 0, rhs, sense, range, name);
 	CHECKRVALG (rval, CLEANUP);
+	if (B)
+	{
+		/* norms saved with the basis have one entry too few now (the addrows
+		 * path extends them itself) */
+		EGLPNUM_TYPENAME_EGlpNumFreeArray (B->rownorms);
+		EGLPNUM_TYPENAME_EGlpNumFreeArray (B->colnorms);
+	}
 
 CLEANUP:
 
